@@ -184,6 +184,18 @@ def R1_plugin(ctx):
         okr = okr and contains(base, lambda s: s[0] == "call" and s[1].endswith("Value::as_object") and unmut(s[2][0]) == ("arg", 2))
         okr = okr and all(b.dominates(rem[0].bb, c.bb) for c in b.calls() if c.callee and "MultiSet" in c.callee)
     ctx.check(okr, "copy-minus-grid-key", "children are not built from a copy of the original object with the grid key removed", b.where(), detail="clone().remove(grid_search)")
+    # the section that is read is the section that is removed: get_grid_search is a plain lookup of the one key the children lose.
+    # (round 6: a spelling-tolerant fallback in get_grid_search expanded queries that have no `grid_search` field, and the
+    # children kept the whole section because `remove` still used the exact key)
+    gimpl = [p_ for p_ in F.bodies if re.search(r"Value as .*InputJsonExtensions>::get_grid_search$", p_)]
+    okg = len(gimpl) == 1
+    gt = None
+    if okg:
+        gb = F.bodies[gimpl[0]]
+        gt = norm_adaptors(F, nosite(deep_strip(clean(Terms(gb).return_term()))))
+        is_key = lambda k_: contains(k_, lambda s_: s_ == ("agg", "routee_compass::plugin::input::input_field::InputField", "GridSearch", ())) or (k_[0] == "const" and len(k_) > 2 and k_[2] == "grid_search")
+        okg = gt[0] == "call" and gt[1].split("{")[0].endswith("Value::get") and len(gt[2]) == 2 and clean(gt[2][0]) == ("arg", 1) and is_key(clean(gt[2][1])) and not [x for x in subterms(clean(gt[2][1])) if x[0] in ("arg", "phi")]
+    ctx.check(okg, "section-read=section-removed", "get_grid_search is not a plain lookup of the `grid_search` key (the key the children are stripped of): %s" % (short(gt)[:160] if gt else "%d impls" % len(gimpl)), (F.bodies[gimpl[0]].where() if gimpl else b.where()), detail="self.get(InputField::GridSearch.to_str())")
     # overlay closure
     cl = [x for x in subterms(val) if x[0] == "closure"]
     if outer_loop is not None and not cl:
